@@ -444,6 +444,14 @@ def check(run):
     pname, pnode = t4(run, tu)
     rows = t5(run, tu)
     kinds = t7(run)
+    # the type object takes size and alignment from the matching columns of the table row (the alignment of a primitive lives in ct_length)
+    npt = tu.func('new_primitive_type')
+    asg = {}
+    for l_, r_, o_, _x in cx.assignments(npt):
+        asg.setdefault(cx.lhs_text(l_), []).append(cx.render(r_))
+    run.ob('f/type-object-takes-size-and-alignment-from-their-columns', 'new_primitive_type', 'td->ct_size = ptypes->size; td->ct_length = ptypes->align',
+           asg.get('td->ct_size') == ['ptypes->size'] and asg.get('td->ct_length') == ['ptypes->align'], tu.where(npt),
+           'ct_size = %s, ct_length (alignment) = %s' % (asg.get('td->ct_size'), asg.get('td->ct_length')))
     run.saw('T3 PRIMITIVE_TO_INDEX entries', ['%d' % len(p2i)])
     run.saw('T4 primitive_name[] entries', ['%d' % len(pname)])
     run.saw('T5 types[] rows', [r['name'] for r in rows])
